@@ -215,7 +215,7 @@ fn daystart(w: &mut World, key: &str, top: &mut Map<String, Value>) {
     }
 }
 
-fn gen_updatecheck_ok(w: &mut World, key: &str) -> Value {
+fn gen_updatecheck_ok(w: &mut World, key: &str, requested_version: Option<String>) -> Value {
     let mut u = Map::new();
     u.insert("status".into(), json!("ok"));
     let nurls = w.draws.draw(&format!("{key}/nurls"), 4);
@@ -224,6 +224,8 @@ fn gen_updatecheck_ok(w: &mut World, key: &str) -> Value {
             (0..nurls)
                 .map(|i| {
                     // codebases need not end in a slash: full URLs are plain concatenations
+                    // the same codebase may be listed more than once: one full URL per (codebase, package) pair all the same
+                    let i = if i > 0 && w.draws.draw(&format!("{key}/url{i}/same_as_first"), 8) == 0 { 0 } else { i };
                     let cb = match w.draws.draw(&format!("{key}/url{i}/form"), 5) {
                         0 | 1 => format!("http://dl{i}.example.test/p/"),
                         2 => format!("http://dl{i}.example.test/get?file="),
@@ -250,7 +252,9 @@ fn gen_updatecheck_ok(w: &mut World, key: &str) -> Value {
         let mut pkgs = vec![];
         for i in 0..npk {
             let mut p = Map::new();
-            p.insert("name".into(), json!(format!("pkg{i}?hash=ab{i}")));
+            // two packages may carry the same name
+            let ni = if i > 0 && w.draws.draw(&format!("{key}/pkg{i}/same_name_as_first"), 8) == 0 { 0 } else { i };
+            p.insert("name".into(), json!(format!("pkg{ni}?hash=ab{ni}")));
             p.insert("required".into(), json!(w.draws.draw(&format!("{key}/pkg{i}/req"), 2) == 1));
             p.insert("fp".into(), json!(format!("1.fp{i}")));
             let big = w.profile.srv.big_size_permille;
@@ -266,7 +270,9 @@ fn gen_updatecheck_ok(w: &mut World, key: &str) -> Value {
             }
             let ex = w.profile.srv.extra_attrs_permille;
             if w.draws.chance(&format!("{key}/pkg{i}/extra"), ex) {
-                p.insert("x_ext".into(), json!({"k": [1, 2, "three"]}));
+                let names = ["x_ext", "fingerprint", "hash_sha1", "id", "codebase"];
+                let n = names[w.draws.draw(&format!("{key}/pkg{i}/extra.name"), names.len() as u64) as usize];
+                p.insert(n.into(), json!({"k": [1, 2, "three"]}));
             }
             pkgs.push(Value::Object(p));
         }
@@ -282,7 +288,12 @@ fn gen_updatecheck_ok(w: &mut World, key: &str) -> Value {
             }
             actions.push(Value::Object(a));
         }
-        let ver = match w.draws.draw(&format!("{key}/mver"), 7) {
+        let ver = match w.draws.draw(&format!("{key}/mver"), 8) {
+            // the version the request states for this app (an offer of the version already there)
+            7 => {
+                w.stat("server.offer_of_same_version");
+                requested_version.unwrap_or_else(|| "2.0.0.0".to_string())
+            }
             0 => "2.0.0.0".to_string(),
             1 => "2.1".to_string(),
             2 => "9.9.9.9".to_string(),
@@ -377,7 +388,8 @@ pub fn gen_doc(w: &mut World, key: &str, req: &SentReq) -> Value {
                     m.insert("updatecheck".into(), json!({"status": "noupdate"}));
                 }
                 1 => {
-                    let u = gen_updatecheck_ok(w, &akey);
+                    let stated = reqapp.as_ref().and_then(|a| a.get("version")).and_then(|v| v.as_str()).map(|v| v.to_string());
+                    let u = gen_updatecheck_ok(w, &akey, stated);
                     m.insert("updatecheck".into(), u);
                 }
                 2 => {
@@ -414,7 +426,12 @@ pub fn gen_doc(w: &mut World, key: &str, req: &SentReq) -> Value {
         m.insert("status".into(), json!(status));
         let ex = w.profile.srv.extra_attrs_permille;
         if w.draws.chance(&format!("{akey}/extra"), ex) {
-            m.insert("x_app_ext".into(), json!("ext"));
+            // also names that mean something elsewhere (in other objects of the protocol, in the
+            // request, or as field names of the library's types): in an app they are extensions
+            let names = ["x_app_ext", "id", "hint", "name", "version", "codebase", "extra_attributes", "update_check", "cohort_id"];
+            let n = names[w.draws.draw(&format!("{akey}/extra.name"), names.len() as u64) as usize];
+            let v = if w.draws.draw(&format!("{akey}/extra.kind"), 3) == 0 { json!(7) } else { json!("ext") };
+            m.insert(n.into(), v);
         }
         apps.push(Value::Object(m));
     }
